@@ -26,3 +26,8 @@ package web
 //@   requires h != nil && h.conf != nil && r != nil && h.templates != nil
 //@   ensures [session-only-after-match] n_session_set > 0 ==> ctc_equal && ctc_b == old(h.password)
 //@   ensures [at-most-one-session] n_session_set <= 1
+
+// C19: the handlers that may be registered without the authentication
+// wrapper; every other request handler of Handler must be wrapped in Authn
+// where it is registered (cmd/shovel).
+//@ public Handler Index,Diag,Prom,Login props=C19
